@@ -178,6 +178,62 @@ POSITIONS = [
 ]
 
 
+def same_name_kinds(ctx):
+    """one two-character name used as scalar, string, array and string array in one program: four identifiers, each
+    array declared (explicitly DIMmed or not, in either order of first use)"""
+    from vf.props.c10 import collect_decls, collect_uses
+    from vf.tv import b09front
+    from vf.tv.lex import SyntaxErr
+
+    uses = {"num": "{n} = 1", "str": '{n}$ = "A"', "numarr": "{n} ( 1 ) = 2", "strarr": '{n}$ ( 2 ) = "B"'}
+    dims = {"numarr": "DIM {n} ( 5 )", "strarr": "DIM {n}$ ( 5 )"}
+    for name in ("Q", "NA", "NAME"):
+        for order in itertools.permutations(KINDS, 2):
+            for dimmed in (None,) + tuple(k for k in order if k in dims):
+                parts = ([dims[dimmed].format(n=name)] if dimmed else []) + [uses[k].format(n=name) for k in order]
+                src = "10 " + " : ".join(parts)
+                for kw in (dict(), dict(initialize_vars=True, default_str_storage=40)):
+                    ctx.stats["programs"] += 1
+                    ctx.stats["obligations"] += 1
+                    o = classify(src + "\n", **kw)
+                    if o[0] != "ok":
+                        continue
+                    try:
+                        stmts = b09front.parse_program(o[1])
+                    except SyntaxErr:
+                        continue
+                    decls, problems, used = {}, [], []
+                    collect_decls(stmts, decls, [0], problems)
+                    collect_uses(stmts, used, [0])
+                    idents = {u[1].upper() for u in used if not u[1].upper().startswith("TMP_")}
+                    want = len(set(order))
+                    missing = [u[1] for u in used if u[0] == "idx" and (decls.get(u[1].upper()) is None or decls[u[1].upper()][0] is None)]
+                    if len(idents) < want:
+                        ctx.violation(f"kinds-alias:{'/'.join(order)}", f"{src!r} {kw}: {want} different variables but identifiers {sorted(idents)}", {"template": None, "source": src})
+                    elif missing:
+                        ctx.violation(f"kinds-array-undeclared:{'/'.join(order)}:{'dim-' + dimmed if dimmed else 'implicit'}", f"{src!r} {kw}: {sorted(set(missing))} subscripted but not declared as an array", {"source": src})
+                    else:
+                        ctx.stats["identity"] += 1
+
+
+def generated_not_initialised(ctx, gen_out, G):
+    """with initialize_vars the prologue assigns user variables only: an identifier the tool generates must not be
+    treated as a user variable by the initialiser"""
+    ctx.stats["obligations"] += 1
+    bad = []
+    for line in gen_out.split("\n"):
+        if re.match(r"\s*\d+\s", line):
+            break
+        for m in re.finditer(r"(^|\\ )\s*([A-Za-z_][A-Za-z_0-9]*\$?) := (0\.0|\"\")(?=\s|$)", line):
+            name = m.group(2)
+            if name.upper().rstrip("$") not in ("QQ",) and name in G:
+                bad.append(name)
+    if bad:
+        ctx.violation("generated-identifier-initialised:" + ",".join(sorted(set(bad))), f"the variable initialiser assigns generated identifiers {sorted(set(bad))} as if they were user variables", {"source": "generated_identifiers() program"})
+    else:
+        ctx.stats["identity"] += 1
+
+
 def run(tier):
     ctx = Ctx("C09", tier, "other", technique="regex->z3 (real var/str_var regexes) + real name visitors on z3 string proxies")
     from coco.b09.grammar import grammar
@@ -309,6 +365,8 @@ def run(tier):
             ctx.stats["identity"] += 1
         else:
             ctx.violation("position:" + tpl, f"names XY / XYZW / XY9 give different results in `{tpl}`", {"template": tpl, "outputs": [str(o)[:300] for o in outs]})
+    same_name_kinds(ctx)
+    generated_not_initialised(ctx, gen_out, G)
     ctx.add_solver_stats(stats.export())
     ctx.extra["solver"] = {"z3": smt.z3_version()}
     ctx.explanation = (
